@@ -116,6 +116,15 @@ static void iauth_class_free_rules(void)
     xfree(conf.rules.vec);
 }
 
+CONF_UPDATE_HOOK(iauth_class_conf_changed);
+
+/** Handles a change inside one rule (a criterion added, removed or edited). */
+static CONF_UPDATE_HOOK(iauth_class_rule_changed)
+{
+    iauth_class_conf_changed(&conf.root->base);
+    (void)node_;
+}
+
 CONF_UPDATE_HOOK(iauth_class_conf_changed)
 {
     struct iauth_class_rules new_rules;
@@ -124,6 +133,7 @@ CONF_UPDATE_HOOK(iauth_class_conf_changed)
     struct conf_node_object *obj;
     struct conf_node_string *str;
     struct set_node *it;
+    struct set_node *sub;
     unsigned int n_rules;
     unsigned int o_idx = 0;
     int res;
@@ -139,29 +149,38 @@ CONF_UPDATE_HOOK(iauth_class_conf_changed)
             continue;
         obj = set_node_data(it);
 
+        /* Make sure we hear about changes inside the rule. */
+        if (!obj->base.hook)
+            obj->base.hook = iauth_class_rule_changed;
+        for (sub = set_first(&obj->contents); sub; sub = set_next(sub)) {
+            base = set_node_data(sub);
+            if (!base->hook)
+                base->hook = iauth_class_rule_changed;
+        }
+
         /* Load the new rule. */
         rule = &new_rules.vec[new_rules.used];
         rule->name = xstrdup(obj->base.name);
         str = conf_get_child(obj, "class", CONF_STRING);
-        if (str)
+        if (str && str->value)
             rule->class = xstrdup(str->value);
         str = conf_get_child(obj, "account", CONF_STRING);
-        if (str)
+        if (str && str->value)
             rule->account = xstrdup(str->value);
         str = conf_get_child(obj, "address", CONF_STRING);
-        if (str)
+        if (str && str->value)
             irc_pton(&rule->address, &rule->address_bits, str->value, 0);
         str = conf_get_child(obj, "username", CONF_STRING);
-        if (str)
+        if (str && str->value)
             rule->username = xstrdup(str->value);
         str = conf_get_child(obj, "hostname", CONF_STRING);
-        if (str)
+        if (str && str->value)
             rule->hostname = xstrdup(str->value);
         str = conf_get_child(obj, "xreply_ok", CONF_STRING);
-        if (str)
+        if (str && str->value)
             rule->xreply_ok = xstrdup(str->value);
         str = conf_get_child(obj, "trust_username", CONF_STRING);
-        if (str)
+        if (str && str->value)
             rule->trust_username = conf_parse_boolean(str->value, 0);
 
         /* Increment the number of rules in the new set. */
